@@ -673,6 +673,7 @@ class RewriteRuleSet:
         *,
         verbose: int | None,
         tracer: _basics.MatchingTracer | None = None,
+        opset_imports: dict[str, int] | None = None,
     ) -> int:
         """
         Apply the rewrite rules to the given graph or function.
@@ -682,11 +683,15 @@ class RewriteRuleSet:
             graph_or_function: The graph or function to which the rewrite rules are applied.
             verbose: The verbosity level. Defaults to None.
             tracer: The tracer for debugging. Defaults to None.
+            opset_imports: The opset imports in effect, when graph_or_function is a
+                subgraph (which has none of its own): those of the enclosing graph or function.
 
         Returns:
             The number of rewrite rules applied.
         """
         count = 0
+        if opset_imports is None:
+            opset_imports = graph_or_function.opset_imports
 
         for rule in self.rules:
             if rule.graph_pre_visitor:
@@ -743,9 +748,8 @@ class RewriteRuleSet:
                     )
 
                     used_domains: set[str] = {node.domain for node in original_nodes}
-                    parent_opset_imports = graph_or_function.opset_imports
                     used_opset_imports = {
-                        k: v for k, v in parent_opset_imports.items() if k in used_domains
+                        k: v for k, v in opset_imports.items() if k in used_domains
                     }
 
                     graph = ir.Graph(
@@ -790,12 +794,20 @@ class RewriteRuleSet:
             for attr in node.attributes.values():
                 if attr.type == ir.AttributeType.GRAPH:
                     count += self._apply_to_graph_or_function(
-                        model, attr.value, verbose=verbose, tracer=tracer
+                        model,
+                        attr.value,
+                        verbose=verbose,
+                        tracer=tracer,
+                        opset_imports=opset_imports,
                     )
                 elif attr.type == ir.AttributeType.GRAPHS:
                     for graph in attr.value:
                         count += self._apply_to_graph_or_function(
-                            model, graph, verbose=verbose, tracer=tracer
+                            model,
+                            graph,
+                            verbose=verbose,
+                            tracer=tracer,
+                            opset_imports=opset_imports,
                         )
 
         for rule in self.rules:
